@@ -27,6 +27,7 @@ pub mod c05;
 pub mod c06;
 pub mod c07;
 pub mod c08;
+pub mod c09;
 pub mod c10;
 pub mod c11;
 pub mod c12;
@@ -43,7 +44,7 @@ pub mod world;
 use scenario::MarketHistory;
 use simcore::{CheckSpec, Part};
 
-pub const PROPERTIES: &[&str] = &["C02", "C03", "C04", "C05", "C06", "C07", "C08", "C10", "C11", "C12", "C13", "C14"];
+pub const PROPERTIES: &[&str] = &["C02", "C03", "C04", "C05", "C06", "C07", "C08", "C09", "C10", "C11", "C12", "C13", "C14"];
 
 fn common_assumptions() -> Vec<String> {
     vec![
@@ -111,6 +112,10 @@ pub fn registry(property: &str) -> Option<CheckSpec> {
         "C11" => Some(spec("C11", "exploration", 400_000, 8_000_000, vec![
             "The two closes run on forks of the same state; only the index price (min and max) is scaled, the pool token prices stay as they are even when the index token is the long token.".into(),
             "Proportionality tolerance: one unit of USD plus the pnl of one base unit of the token size (derived in c11.rs).".into(),
+        ])),
+        "C09" => Some(spec("C09", "exploration", 400_000, 8_000_000, vec![
+            "Model part only: validation after increase / decrease and liquidation through DecreasePosition with the liquidation flag, always for the full size (the store rejects partial liquidations); auto-deleveraging is covered by the chain-level part.".into(),
+            "check_liquidatable is the repository's public API, called by the harness on forks of the pre- and post-state.".into(),
         ])),
         _ => None,
     }
